@@ -3,6 +3,7 @@ import GqlProofs.ExecLog
 import GqlProofs.ExecExample
 import GqlProofs.ExecAccurate
 import GqlProofs.ExecResolved
+import GqlProofs.ExecTypename
 /-! # C20 — Resolvers are invoked once per selected field with accurate parameters
 
 Property theorems only, about the execution-algorithm model `GqlModel.Exec.execute` (`GqlModel/Exec.lean`), for EVERY
@@ -108,6 +109,48 @@ theorem resolved_iff_reached (s : Schema) (doc : Document) (opName : String) (in
     exact ⟨e, he', hp, fun e' h1 h2 => eq_of_nodup_map_path hnd he' h1 (h2.trans hp.symm)⟩
   · cases hnone
 
+/-- the runtime type of an object reached by completing a value for the declared type `t` (innermost named type `n`):
+`n` itself when `n` is an object type; when `n` is abstract, the type `runtimeTypeOf` chose for THAT value — an object
+type and a possible type of `n` -/
+theorem objAt_runtime_type (c : Ctx) (t : GType) (p : Path) (v : GoVal) (ot : String) (o : GoVal) (p' : Path)
+    (h : ObjAt c t p v ot o p') :
+    (c.schema.isObject t.namedName = true ∧ ot = t.namedName) ∨
+    (c.schema.isAbstract t.namedName = true ∧ runtimeTypeOf c t.namedName o = some ot ∧
+      c.schema.isObject ot = true ∧ c.schema.isPossibleType t.namedName ot = true) := by
+  induction h with
+  | thunk _ ih => exact ih
+  | nonNull _ ih => exact ih
+  | item _ _ ih => exact ih
+  | object _ _ hobj _ => exact Or.inl ⟨hobj, rfl⟩
+  | abstract _ _ habs hrt hobj hposs => exact Or.inr ⟨habs, hrt, hobj, hposs⟩
+
+/-- (C10's clause, C20's "runtime object type of the parent") `__typename` always names the RUNTIME object type: for
+every legitimate position whose place in the response's data holds an object, the value under every response key that
+selects `__typename` is `.str rt`, `rt` being the runtime object type of that position — the root type at the root;
+below it the type `objAt_runtime_type` describes (for an abstract declared type: what `runtimeTypeOf` chose for the
+value, a possible object type), i.e. the very type whose groups were executed there. -/
+theorem typename_is_runtime_type (s : Schema) (doc : Document) (opName : String) (inputs : Coerce.Vars)
+    (w : World) (fuel : Nat) (data : List (String × JVal)) (errs : List (Path × Bool)) (log : List LogEntry)
+    (kf : List Path) (h : execute s doc opName inputs w fuel = .result (some data) errs log kf) :
+    ∃ c root sel, requestCtx s doc opName inputs w = some (c, root, sel) ∧
+      ∀ rt src path G, Position c root (rootGroups c root sel) rt src path G →
+        ∀ fs, ValAt (.obj data) path (.obj fs) →
+          ∀ k nodes node x, (k, nodes) ∈ G → nodes.head? = some node → node.name = "__typename" → (k, x) ∈ fs →
+            x = .str rt := by
+  obtain ⟨c, root, sel, r, st, hc, hr, -, -, -, hd⟩ := execute_result h
+  refine ⟨c, root, sel, hc, ?_⟩
+  rcases hd with ⟨fs0, rfl, hfs⟩ | ⟨-, hnone⟩
+  · cases hfs
+    intro rt src path G hpos fs hval
+    have hkeys : (data.map (·.1)).Nodup := by
+      rw [execGroups_ok_keys c fuel _ _ _ _ _ _ _ _ _ hr]
+      simp only [List.map_nil, List.nil_append]
+      exact List.Nodup.sublist (List.Sublist.map _ List.filter_sublist)
+        (collect_keys_nodup c root sel ([], []) List.nodup_nil)
+    exact ((tnP c fuel).groups _ _ _ _ _ _ _ _ _ hr).hered
+      (execGroups_typename c fuel _ _ _ _ _ _ _ _ hr hkeys) hkeys hpos (rel := path) (by simp) hval
+  · cases hnone
+
 /-! ## Non-vacuity -/
 
 open Ex in
@@ -131,5 +174,12 @@ position `w` is not in the data; `o` and `n` are objects and all their selected 
 example : (obsData (execute schema doc "Q" varsF world 50)).map (fun d =>
       ((JVal.lookup d "w").map JVal.isNull, (JVal.lookup d "o").map JVal.isNull)) = some (some true, some false) := by
   decide +kernel
+
+open Ex in
+/-- `n` is declared `Node` (an interface); its `__typename` is the runtime type `O` -/
+example : ((obsData (execute schema doc "Q" varsT world 50)).bind (fun d => JVal.lookup d "n")).map
+    (fun o => match o with
+      | .obj fs => (JVal.lookup fs "__typename").map (fun t => match t with | .str x => x | _ => "?")
+      | _ => none) = some (some "O") := by decide +kernel
 
 end GqlModel.Exec
